@@ -21,6 +21,7 @@ import (
 	"github.com/octohelm/gengo/pkg/gengo/snippet"
 
 	"verif/fixtures/holder"
+	"verif/internal/fixture"
 	"verif/internal/pipeline"
 )
 
@@ -40,6 +41,8 @@ type Behav struct {
 	Imports []string `json:"imports,omitempty"`
 	// Probe: names looked up through Package.Type / Constant / Function by the "observe" mode.
 	Probe []string `json:"probe,omitempty"`
+	// Code: rendered verbatim after every type's marker (render mode).
+	Code string `json:"code,omitempty"`
 }
 
 type GenSpec struct {
@@ -99,6 +102,9 @@ func Build(specs []GenSpec) []gengo.Generator {
 				snippet.Arg("g", snippet.Block(gs.Name)), snippet.Arg("salt", snippet.Block(bh.Salt)), snippet.Arg("n", snippet.Block(name)))
 			for _, ip := range bh.Imports {
 				c.RenderT("var _ @t\n\n", snippet.Arg("t", snippet.ID(ip)))
+			}
+			if bh.Code != "" {
+				c.Render(snippet.Block(bh.Code + "\n\n"))
 			}
 		}
 		b.OnType = func(c gengo.Context, named *types.Named, inst *pipeline.Instance) error {
@@ -298,6 +304,8 @@ type RunSpec struct {
 	Gens  []GenSpec `json:"gens"`
 	Fault Fault     `json:"fault,omitempty"`
 	Out   string    `json:"out"`
+	// Workspace: the run happens inside a go.work workspace (child processes only: GOWORK is off everywhere else)
+	Workspace bool `json:"workspace,omitempty"`
 }
 
 type Result struct {
@@ -344,6 +352,10 @@ func ChildMain(specFile string) {
 	// gengo prints to stdout; keep it away from the terminal
 	if devnull, err := os.OpenFile("/dev/null", os.O_WRONLY, 0); err == nil {
 		_ = syscall.Dup2(int(devnull.Fd()), 1)
+	}
+	if rs.Workspace {
+		fixture.CleanGoEnv()
+		os.Setenv("GOWORK", "")
 	}
 	res := RunInProcess(rs.Dir, rs.Args, rs.Gens)
 	ob, _ := json.Marshal(res)
